@@ -3959,7 +3959,6 @@ class Generator:
         query = expression.args.get("query")
         unnest = expression.args.get("unnest")
         field = expression.args.get("field")
-        is_global = " GLOBAL" if expression.args.get("is_global") else ""
 
         if query:
             in_sql = self.sql(query)
@@ -3970,7 +3969,10 @@ class Generator:
         else:
             in_sql = f"({self.expressions(expression, dynamic=True, new_line=True, skip_first=True, skip_last=True)})"
 
-        return f"{self.sql(expression, 'this')}{is_global} IN {in_sql}"
+        return f"{self.sql(expression, 'this')} {self.in_op(expression)} {in_sql}"
+
+    def in_op(self, expression: exp.In) -> str:
+        return "GLOBAL IN" if expression.args.get("is_global") else "IN"
 
     def in_unnest_op(self, unnest: exp.Unnest) -> str:
         return f"(SELECT {self.sql(unnest)})"
